@@ -22,7 +22,11 @@ def name_cases(tier, rng):
             out.append("".join(rng.choice(ALPHA) for _ in range(7)))
     extra = ["..", ".", "../decoy.jst", "/etc/passwd", "a/../../decoy.jst", "b/../a", "./a", "b/./a", "b//a", "b/a/",
              '"../decoy.jst"', '"/etc/passwd"', '".."', '""', "a\\b", '"b/a"', "b/..", "...", "b/...", "..a", "b/..a",
-             ".a", "b/.a", "a.", "b/a.", "/", "//", "b/", '"b/"', "~", "C:\\x", "\\\\host\\share"]
+             ".a", "b/.a", "a.", "b/a.", "/", "//", "b/", '"b/"', "~", "C:\\x", "\\\\host\\share",
+             # an empty segment in front of a dot segment (the directory before it need not exist)
+             "a//..", "b//..", "x//..", "a//../..", "b//../../decoy.jst", "x//../../decoy.jst", "a//../../decoy.jst",
+             "b/a//../../../decoy.jst", '"x//../../decoy.jst"', "b//./a", "x//./a", "b///../../decoy.jst", "b/./../../decoy.jst",
+             "x//../a", "b//../a", "b/b//../../a", "a/..//../decoy.jst", "b//a/../../../decoy.jst"]
     return out + extra
 
 
